@@ -14,6 +14,8 @@ pub enum G {
     And(Vec<G>),
     Or(Vec<G>),
     Not(Box<G>),
+    /// time(G): G's first solution only; prints the elapsed time
+    Time(Box<G>),
     Cut,
     Fail,
     Nl,
@@ -50,7 +52,15 @@ impl G {
         match self {
             G::Cut => true,
             G::And(g) | G::Or(g) => g.iter().any(|x| x.has_cut()),
-            G::Not(g) => g.has_cut(),
+            G::Not(g) | G::Time(g) => g.has_cut(),
+            _ => false,
+        }
+    }
+    pub fn has_time(&self) -> bool {
+        match self {
+            G::Time(_) => true,
+            G::And(g) | G::Or(g) => g.iter().any(|x| x.has_time()),
+            G::Not(g) => g.has_time(),
             _ => false,
         }
     }
@@ -58,12 +68,13 @@ impl G {
         match self {
             G::Not(_) => true,
             G::And(g) | G::Or(g) => g.iter().any(|x| x.has_not()),
+            G::Time(g) => g.has_not(),
             _ => false,
         }
     }
     pub fn has_output(&self) -> bool {
         match self {
-            G::Nl | G::Print(_) | G::PrintList(_) => true,
+            G::Nl | G::Print(_) | G::PrintList(_) | G::Time(_) => true,
             G::And(g) | G::Or(g) => g.iter().any(|x| x.has_output()),
             G::Not(g) => g.has_output(),
             _ => false,
@@ -72,7 +83,7 @@ impl G {
     pub fn leaves(&self) -> usize {
         match self {
             G::And(g) | G::Or(g) => g.iter().map(|x| x.leaves()).sum(),
-            G::Not(g) => g.leaves(),
+            G::Not(g) | G::Time(g) => g.leaves(),
             _ => 1,
         }
     }
@@ -85,6 +96,7 @@ impl G {
             G::And(g) => G::And(g.iter().map(|x| x.map_terms(f)).collect()),
             G::Or(g) => G::Or(g.iter().map(|x| x.map_terms(f)).collect()),
             G::Not(g) => G::Not(Box::new(g.map_terms(f))),
+            G::Time(g) => G::Time(Box::new(g.map_terms(f))),
             G::Print(a) => G::Print(a.iter().map(|x| f(x)).collect()),
             G::PrintList(a) => G::PrintList(a.iter().map(|x| f(x)).collect()),
             G::Bip(n, a) => G::Bip(n.clone(), a.iter().map(|x| f(x)).collect()),
@@ -123,6 +135,7 @@ impl G {
                 }
             }
             G::Not(g) => format!("not({})", g.text_in(0)),
+            G::Time(g) => format!("time({})", g.text_in(0)),
             G::Cut => "!".into(),
             G::Fail => "fail".into(),
             G::Nl => "nl".into(),
@@ -141,6 +154,7 @@ impl G {
             G::And(g) => json!({"and": g.iter().map(|x| x.to_json()).collect::<Vec<_>>()}),
             G::Or(g) => json!({"or": g.iter().map(|x| x.to_json()).collect::<Vec<_>>()}),
             G::Not(g) => json!({"not": g.to_json()}),
+            G::Time(g) => json!({"time": g.to_json()}),
             G::Cut => json!("!"),
             G::Fail => json!("fail"),
             G::Nl => json!("nl"),
@@ -176,6 +190,9 @@ impl G {
         }
         if let Some(x) = o.get("or") {
             return Some(G::Or(gs(x)?));
+        }
+        if let Some(x) = o.get("time") {
+            return Some(G::Time(Box::new(G::from_json(x)?)));
         }
         if let Some(x) = o.get("not") {
             return Some(G::Not(Box::new(G::from_json(x)?)));
@@ -237,6 +254,7 @@ pub fn to_goal(g: &G) -> Goal {
         G::And(gs) => Goal::OperatorGoal(Operator::And(gs.iter().map(to_goal).collect())),
         G::Or(gs) => Goal::OperatorGoal(Operator::Or(gs.iter().map(to_goal).collect())),
         G::Not(g) => Goal::OperatorGoal(Operator::Not(vec![to_goal(g)])),
+        G::Time(g) => Goal::OperatorGoal(Operator::Time(vec![to_goal(g)])),
         G::Cut => bip("!", None),
         G::Fail => bip("fail", None),
         G::Nl => bip("nl", None),
@@ -274,7 +292,10 @@ pub fn infix_text(g: &G) -> String {
     match g {
         G::Unify(a, b) => format!("{} = {}", term(a), term(b)),
         G::Cmp(r, a, b) => format!("{} {} {}", a.text(), r.infix(), b.text()),
-        G::And(gs) => gs.iter().map(infix_text).collect::<Vec<_>>().join(", "),
+        G::And(gs) if gs.iter().all(|g| !matches!(g, G::And(_) | G::Or(_))) => gs.iter().map(infix_text).collect::<Vec<_>>().join(", "),
+        G::Or(gs) if gs.iter().all(|g| !matches!(g, G::And(_) | G::Or(_))) => gs.iter().map(infix_text).collect::<Vec<_>>().join("; "),
+        G::Not(g) if !matches!(**g, G::And(_) | G::Or(_)) => format!("not({})", infix_text(g)),
+        G::Time(g) if !matches!(**g, G::And(_) | G::Or(_)) => format!("time({})", infix_text(g)),
         other => other.text(),
     }
 }
